@@ -545,7 +545,7 @@ static long long do_op(op_t *o) {
     case OP_SRCLEN: ret = m_mod_src_len(H(a[0]), M_SRC_TYPE_END); break;
     case OP_MSTATS: { m_mod_stats_t st; ret = m_mod_stats(H(a[0]), &st); if (ret == 0) tr("N mstats %d sent=%llu recv=%llu", SELF(a[0]), (unsigned long long)st.sent_msgs, (unsigned long long)st.recv_msgs); break; }
     case OP_LOOKUP: { m_mod_t *m = m_mod_lookup(H(a[0]), SL[SELF(a[1])].name); ret = m ? slot_of_mod(m) : -1; break; }
-    case OP_NAMEOF: { m_mod_t *m = H(a[0]); const char *n = m ? m_mod_name(m) : NULL; ret = (n && strcmp(n, SL[SELF(a[0])].name) == 0) ? 1 : 0; if (m && m_mod_is(m, M_MOD_ZOMBIE)) ret += 10; break; }
+    case OP_NAMEOF: { m_mod_t *m = H(a[0]); if (!m) { ret = -1007; break; } const char *n = m_mod_name(m); ret = (n && strcmp(n, SL[SELF(a[0])].name) == 0) ? 1 : 0; if (m && m_mod_is(m, M_MOD_ZOMBIE)) ret += 10; break; }
     case OP_EVT_RETAIN: { int k = (int)a[0]; if (depth > 0 && k >= 0 && k < cur_nevts[depth] && nret < 256) { m_evt_t *e = (m_evt_t *)cur_evts[depth][k]; ret_t *r = &RET[nret]; r->e = m_mem_ref(e); r->copy = *e; r->type = e->type; r->live = true;
             if (e->type == M_SRC_TYPE_PS) { r->key = topic_idx(e->ps_evt->topic); r->data = payload_id(e->ps_evt->data); }
             else if (e->type == M_SRC_TYPE_FD) r->key = e->fd_evt->fd; else if (e->type == M_SRC_TYPE_TMR) r->key = (long long)e->tmr_evt->ns; else if (e->type == M_SRC_TYPE_SGN) r->key = e->sgn_evt->signo; else if (e->type == M_SRC_TYPE_TASK) r->key = e->task_evt->tid; else r->key = 0;
